@@ -16,6 +16,7 @@ CHARS += ESCP
 # position: (name, template with {P}, kind)   kind: text | attr | verbatim | meta
 POSITIONS = [
     ("paragraph", b"{P}\n", "text"), ("heading", b"# {P}\n", "text"), ("list-item", b"* {P}\n* other\n", "text"), ("table-cell", b"| {P} | x |\n|---|---|\n| y | z |\n", "text"),
+    ("table-cell-spanning-then-cell", b"| {P} || x |\n|---|---|---|\n| y | z | w |\n", "text"), ("table-cell-after-spanning-cell", b"| a || {P} |\n|---|---|---|\n| y | z | w |\n", "text"), ("table-cell-spanning-last", b"| x | {P} ||\n|---|---|---|\n| y | z | w |\n", "text"),
     ("quote", b"> {P}\n", "text"), ("emphasis", b"*{P}*\n", "text"), ("link-text", b"[{P}](http://x.y/)\n", "text"), ("link-title", b"[t](http://x.y/ \"{P}\")\n", "attr"),
     ("url", b"[t](http://x.y/{P})\n", "attr"), ("image-alt", b"![{P}](i.png)\n", "attr"), ("footnote", b"x[^f]\n\n[^f]: {P}\n", "text"), ("definition", b"term\n: {P}\n", "text"),
     ("code-span", b"a `{P}` b\n", "verbatim"), ("code-block", b"```\n{P}\n```\n", "verbatim"), ("code-block-with-language", b"```python\n{P}\n```\n", "verbatim"), ("indented-code", b"    {P}\n", "verbatim"), ("math", b"a ${P}$ b\n", "verbatim"),
@@ -107,7 +108,7 @@ def make_case():
         pi, ci, tight, sk, fi = combos[idx]
         pname, tpl, kind = POSITIONS[pi]; c = CHARS[ci]; fname, fmt = FORMATS[fi]
         # generator hygiene (structure, not text)
-        if c == b"|" and pname == "table-cell": return (None, [], dict(skipped=1))
+        if c == b"|" and pname.startswith("table-cell"): return (None, [], dict(skipped=1))
         if c in (b"[", b"]") and pname in ("link-text", "image-alt"): return (None, [], dict(skipped=1))
         if c == b"\\" and not tight: return (None, [], dict(skipped=1))          # backslash + space is the non-breaking-space escape
         if c in (b"`",) and pname in ("code-span",): return (None, [], dict(skipped=1))
@@ -123,7 +124,7 @@ def make_case():
         if c in ESCP:
             if kind in ("meta", "attr") or pname in ("abbreviation-short-form-reused", "glossary-term-reused", "abbreviation-expansion"): return (None, [], dict(skipped=1))          # escapes are defined for running text; attribute/metadata strings and note keys/expansions are taken as written
             if c[1:] == b"`" and pname == "code-span": return (None, [], dict(skipped=1))
-            if c[1:] == b"|" and pname == "table-cell": return (None, [], dict(skipped=1))
+            if c[1:] == b"|" and pname.startswith("table-cell"): return (None, [], dict(skipped=1))
             if c[1:] in (b"[", b"]") and pname == "link-text": return (None, [], dict(skipped=1))
             if kind == "text": c = c[1:]                                                  # what the reader must see
         complete = kind == "meta" or pname == "abbreviation-expansion"        # LaTeX shows an expansion only in the preamble definitions
